@@ -92,16 +92,72 @@ def check_claim(chk, cfg, m, fn):
         if subs:
             optimistic = True
         if cas_nf and not subs:
-            chk.unknown("R2.reservation", pathid, "CAS-based reservation idiom is not modelled by this checker",
-                        cas_nf[0].inst.loc)
-            continue
+            # pessimistic reservation: num_free goes from e to e-1 by compare-exchange, only for an observed e != 0
+            probs = []
+            outcomes = []
+            for e in cas_nf:
+                flag = None
+                for c, taken, inst in p.conds:
+                    cc = strip_casts(c)
+                    if cc[0] == "cx" and cc[1] == e.ptr and cc[2] == e.extra and cc[-1] == 1:
+                        flag = bool(taken)
+                outcomes.append(flag)
+                try:
+                    d = (eval_concrete(e.val, {e.extra: 5}) - 5) & 0xff
+                except NoValue:
+                    d = None
+                if d != 0xff:
+                    probs.append("the compare-exchange on num_free does not install (expected - 1)")
+                nz = False
+                for c, taken, inst in p.conds:
+                    cc = strip_casts(c)
+                    if cc[0] == "icmp" and cc[1] in ("eq", "ne") and strip_casts(cc[2]) == e.extra and cc[3][0] == "c" and cc[3][2] == 0:
+                        nz = (cc[1] == "ne") == bool(taken)
+                if not nz:
+                    probs.append("the expected value of the compare-exchange is not known to be non-zero")
+            if None in outcomes:
+                chk.unknown("R2.reservation", pathid, "outcome of a compare-exchange on num_free is not tested", cas_nf[0].inst.loc)
+                continue
+            won = outcomes.count(True)
+            # the most recent observation of the counter: the value a failed exchange reports, else the load
+            last = cas_nf[-1]
+            last_obs = ("cx",) + tuple(last.res[1:]) + (0,) if outcomes[-1] is False else None
+            saw_zero = False
+            if last_obs is not None:
+                for c, taken, inst in p.conds:
+                    cc = strip_casts(c)
+                    if cc[0] == "icmp" and cc[1] in ("eq", "ne") and strip_casts(cc[2]) == last_obs and cc[3][0] == "c" and cc[3][2] == 0 \
+                            and (cc[1] == "eq") == bool(taken):
+                        saw_zero = True
+            if won == 0 and _is_null(p.ret) and saw_zero:
+                pass            # the failed exchange itself reported 0: the queue was full at that instant
+            elif won == 0 and _is_null(p.ret):
+                probs.append("claim refuses after its compare-exchange on num_free failed, without looking at the counter again: "
+                             "a failed exchange means the counter CHANGED (another claim, or a release), not that it is zero, so a "
+                             "claimer is turned away while buffers are free")
+            elif won == 1 and _is_null(p.ret):
+                probs.append("a reservation is taken but NULL is returned")
+            elif won == 0 and not _is_null(p.ret):
+                probs.append("a buffer is returned without a successful reservation")
+            elif won > 1:
+                probs.append("%d reservations on one path" % won)
+            chk.ob("R2.reservation", pathid, not probs, "; ".join(probs) if probs else
+                   "compare-exchange reservation: one successful exchange e -> e-1 with e != 0 on the path that returns a buffer",
+                   cas_nf[0].inst.loc, fn.name)
+            if probs or _is_null(p.ret):
+                continue
+            cas_reserved = True
         net = _net_reservation(p, fn, m)
         sendp_w = _events_on(p, fn, m, "sendp", ("cmpxchg", "rmw", "store"))
         loc = p.ret_inst.loc
-        if net is None:
+        if cas_nf and not subs:
+            net = -1            # established by the compare-exchange reservation above
+        elif net is None:
             chk.unknown("R2.reservation", pathid, "non-constant update of num_free", loc)
             continue
-        if net == -1:
+        if net == -1 and cas_nf and not subs:
+            pass
+        elif net == -1:
             chk.ob("R2.reservation", pathid, not _is_null(p.ret),
                    "net effect -1 on num_free: must return a buffer (returns %s)" % fmt(p.ret)[:80], loc, fn.name)
         elif net == 0:
